@@ -37,6 +37,10 @@ pub fn cells(tier: Tier) -> Vec<CellPlan> {
     add(cells::same_frame3("C01"), 1, 1, 2, 1.0);
     add(cells::wrap("C01", 4), 1, 2, 4, 1.0);
     add(cells::reinsert("C01"), 1, 2, 4, 1.0);
+    add(cells::three_comps("C01", 1), 1, 2, 2, 1.0);
+    add(cells::three_comps("C01", 2), 1, 1, 2, 1.0);
+    add(cells::vis_neighbour("C01", Vis::Whitelist), 1, 1, 2, 1.0);
+    add(cells::vis_neighbour("C01", Vis::Blacklist), 1, 1, 2, 1.0);
     v
 }
 
